@@ -29,7 +29,7 @@ ASSUMPTIONS = [
     "work is counted in Python-level function calls made while inside sqlglot; a loop that calls nothing is not counted (none exists in the code base: every parser loop calls _match/_advance)",
 ]
 HYP_SHRINK = True
-PUNCT = ["(", ")", ",", ".", ";", "*", "+", "-", "/", "=", "<", ">", "<>", "::", "[", "]", "{", "}", ":", "'", '"', "`", "$", "@", "?", "||", "->", "=>", "--", "/*", "*/", "1", "1.5", "'s'", "x", "t.a", "NULL"]
+PUNCT = ["(", ")", ",", ".", ";", "*", "+", "-", "/", "=", "<", ">", "<>", "::", "[", "]", "{", "}", ":", "'", '"', "`", "$", "@", "?", "||", "->", "=>", "--", "/*", "*/", "1", "1.5", "'s'", "x", "t.a", "NULL", "1e", "2.e", "1e+", "0x", ".5", "1_0", "-", "NOT", "[1e]", "[:-"]
 LEVELS = ("IGNORE", "WARN", "RAISE", "IMMEDIATE")
 _KW: dict = {}
 
@@ -123,6 +123,14 @@ def corpus():
 @st.composite
 def cases(draw, depth):
     kind = draw(st.sampled_from(("V", "M", "M", "M", "K", "U", "S", "F", "F")))
+    if kind == "S" and draw(st.integers(0, 5)) == 0:
+        # scaled family of its own: LIMIT/OFFSET whose operand is a subquery with a LIMIT ..., nested k deep
+        k = draw(st.integers(2, 14))
+        inner = str(draw(st.integers(1, 9)))
+        for _ in range(k):
+            inner = f"(SELECT a {draw(st.sampled_from(('LIMIT', 'LIMIT', 'OFFSET')))} {inner})"
+        return {"kind": "S", "dialect": draw(st.sampled_from(sqlcore.dialect_names())), "other": "", "level": draw(st.sampled_from(LEVELS)), "count_work": True,
+                "sql": f"SELECT a FROM t LIMIT {inner}", "muts": [], "repeat": 1, "nest": 0, "limit_nest": k}
     if kind == "F" and not corpus():
         kind = "M"
     d = draw(st.sampled_from(sqlcore.dialect_names()))
@@ -311,6 +319,11 @@ WORK_FAIL_STOP = 6
 
 def check_case(case, res=None):
     logging.getLogger("sqlglot").setLevel(logging.CRITICAL)
+    if case.get("limit_nest", 0) >= 8 and not case.get("no_exclusion"):
+        # known finding C05-nested-limit-subquery-exponential: excluded by construction, counted
+        if res is not None:
+            res.excluded["C05-nested-limit-subquery-exponential"] += 1
+        return []
     if res is not None and _WORK_FAILS[0] >= WORK_FAIL_STOP:
         # every work-bound violation costs the whole budget (a hang inside an import is re-entered by every later case):
         # once a shard has recorded a dozen of them the verdict is settled and the rest of the shard is skipped, counted
